@@ -15,10 +15,39 @@ const ioutilPkg = "go.etcd.io/etcd/pkg/v3/ioutil"
 
 // R16w: durability points and validation-before-hand-out in the WAL and snapshot packages.
 var rR16w = RuleRef{Name: "R16w", Doc: "durability points and validation before hand-out (success-subgraph must-pass-through): WAL.Save returns nil after writing only through sync()/cut() unless MustSync is false; sync() reaches Fdatasync unless unsafeNoSync; cut() syncs before the rename and fsyncs the directory after it; SaveSnapshot returns through sync(); Repair fsyncs after truncating; snapshots are written with WriteAndSyncFile, which fsyncs; decodeRecord returns nil only after Unmarshal succeeded and (for non-CRC records) Validate succeeded, and consults isTornEntry before reporting corruption; snap.Read returns a snapshot only after the CRC comparison", Run: func(c *C) {
+	// the switch that turns syncing off: whatever SetUnsafeNoFsync sets (a boolean field, or one bit of a flag word)
+	noSync := []string{"T|field:unsafeNoSync"}
+	if set := c.P.Func(walPkg, "WAL.SetUnsafeNoFsync"); set != nil {
+		for _, b := range set.Blocks {
+			for _, in := range b.Instrs {
+				st, ok := in.(*ssa.Store)
+				if !ok {
+					continue
+				}
+				fa, ok := st.Addr.(*ssa.FieldAddr)
+				if !ok {
+					continue
+				}
+				if k, ok := st.Val.(*ssa.Const); ok && k.Value != nil && k.Value.ExactString() == "true" {
+					noSync = append(noSync, "T|field:"+fieldName(fa))
+				}
+				if bo, ok := st.Val.(*ssa.BinOp); ok && bo.Op == token.OR {
+					if k, ok := constInt(bo.Y); ok {
+						noSync = append(noSync, fmt.Sprintf("T|bit:%s&%d", fieldName(fa), k))
+					}
+				}
+				if call, ok := st.Val.(*ssa.Call); ok && len(call.Call.Args) == 2 {
+					if k, ok := constInt(call.Call.Args[1]); ok {
+						noSync = append(noSync, fmt.Sprintf("T|bit:%s&%d", fieldName(fa), k))
+					}
+				}
+			}
+		}
+	}
 	obs := []ordOb{
 		{Pkg: walPkg, Fn: "WAL.Save", At: "ret-nil", NeedAny: []string{"F|call:MustSync", "C|sync", "C|cut"}, IfMay: []string{"C|saveEntry", "C|saveState"}, What: "a nil return after records were written passes sync()/cut() unless MustSync said no"},
 		{Pkg: walPkg, Fn: "WAL.Save", At: "call:saveState", NeedAll: []string{"C|MustSync"}, What: "MustSync is evaluated against the previous hard state before it is overwritten"},
-		{Pkg: walPkg, Fn: "WAL.sync", At: "ret-ok", NeedAny: []string{"C|Fdatasync", "T|field:unsafeNoSync"}, What: "sync reaches Fdatasync on every successful path unless unsafeNoSync"},
+		{Pkg: walPkg, Fn: "WAL.sync", At: "ret-ok", NeedAny: append([]string{"C|Fdatasync"}, noSync...), What: "sync reaches Fdatasync on every successful path unless unsafeNoSync"},
 		{Pkg: walPkg, Fn: "WAL.sync", At: "call:Fdatasync", NeedAny: []string{"OK|flush", "T|cmp:encoder==nil"}, What: "the encoder is flushed before the file is synced"},
 		{Pkg: walPkg, Fn: "WAL.cut", At: "call:Rename", NeedAll: []string{"OK|sync", "OK|saveState", "OK|encode#4"}, What: "the new segment is complete (its leading CRC record, record type 4, and the hard state were written) and synced before it is renamed into place"},
 		{Pkg: walPkg, Fn: "WAL.cut", At: "ret-nil", NeedAll: []string{"OK|Rename", "OK|Fsync"}, What: "the directory is fsynced after the rename"},
